@@ -375,6 +375,12 @@ REGISTRY = {
                         "the directory lock is not part of the engine model (C16); the generated scenarios open every copy (while the source directory exists) under an independently chosen configuration and write to it",
                         "file-system calls do not fail"],
     },
+    "C08": {
+        "corr": lambda tier, seed: corr_simple("C08", tier, seed, "concgen", 60, 1500, ["C08", "C09", "C01", "C02"],
+                                               "harness/vh concgen: (a) stepped schedules - 2 to 4 clients (real goroutines) on overlapping keys, every interleaving position drawn at random, Get split at the schedule point between index lookup and file read (hook H6), results of every completed call compared with the Conc model run on the same schedule and with a reference fixed at each call's linearization point; (b) a writer parked inside its critical section (hooks put.appended / delete.checked / delete.appended) while a second client calls Put / Delete / Get: a writer must stay blocked; (c) free-running stress of 2-8 goroutines (every fourth scenario, half of them with a concurrent Merge): call/return order and results checked for per-key linearizability, live mapping = final reads = mapping after a restart"),
+        "assumptions": ["the decomposition of calls into atomic actions (Put and Delete: one critical section of the engine lock containing append and index update; Get: index lookup, then file read) is extracted from db.go by translator T2 and checked by a theorem on every run; sync.RWMutex, the shard locks and the Go memory model are trusted",
+                        "ListKeys, Fold, iterators, batches and Merge running concurrently are exercised by the stress part (and Merge with racing writers by C06's mergei scenarios), not covered by the linearizability theorem"],
+    },
     "C10": {
         "corr": lambda tier, seed: corr_iter("C10", tier, seed),
         "assumptions": ["container/heap is abstracted by its contract (items[0] is a minimum of the live cursors after Init/Push/Pop), google/btree, huandu/skiplist and the sorted slice of the hash-map iterator by their ordered-set contracts",
